@@ -184,7 +184,7 @@ def oracle_coop(rep, scs, name="coop-closure"):
     return n_viol
 
 
-def correspond_wake(rep, tier, seed, profiles=("legal", "queue", "flow", "limits", "recv", "starve", "bp", "mixed", "reset", "control", "shutdown")):
+def correspond_wake(rep, tier, seed, profiles=("legal", "queue", "flow", "bufcap", "limits", "recv", "starve", "bp", "mixed", "reset", "control", "shutdown")):
     per = 14 if tier == "quick" else 300
     steps = 90 if tier == "quick" else 140
     cases, scs_all, hist, unproj = [], [], {}, []
